@@ -81,12 +81,15 @@ func validateCase(stream string, g *GraphJ, sup []SupJ) *Case {
 			}
 			dimsz[n] = l
 		}
-		// every other case: the model has already completed a Run with an input set that satisfies the
+		// one case in three: the model has already completed a Run with an input set that satisfies the
 		// signature (what Run enforces must not depend on earlier Runs)
+		// ... and every third case: the FIRST Run of the model was one that must be refused (one of the inputs
+		// has a rank too many; which one rotates): whatever a refused Run leaves behind, the next Run enforces
+		// the whole signature
 		validateCounter++
-		if validateCounter%2 == 0 {
+		if validateCounter%3 != 0 {
 			warm := gonnx.Tensors{}
-			for _, v := range g.Inputs {
+			for k, v := range g.Inputs {
 				sh := []int{}
 				for _, d := range v.Dims {
 					if n, ok := d.(int); ok && n > 0 {
@@ -94,6 +97,9 @@ func validateCase(stream string, g *GraphJ, sup []SupJ) *Case {
 					} else {
 						sh = append(sh, 2)
 					}
+				}
+				if validateCounter%3 == 2 && len(g.Inputs) > 0 && k == (validateCounter/3)%len(g.Inputs) {
+					sh = append(sh, 1)
 				}
 				warm[v.Name] = mkTensor(seqT("f32", sh, func(i int) float64 { return 1 }))
 			}
@@ -197,8 +203,8 @@ func genC13(e *emitter, tier string) {
 		e.emit(validateCase("single", g, []SupJ{{"y", []int{2}}}))           // wrong name only
 	}
 	// the extents of a satisfying input set REDISTRIBUTED among the inputs (same extents in the same order, cut
-	// at other places: ranks differ per input, the flattened list of extents does not); each twice, so that one
-	// of the two comes after a completed Run with the satisfying set
+	// at other places: ranks differ per input, the flattened list of extents does not); each three times, so that one
+	// comes after a completed Run with the satisfying set and one after a refused first Run
 	for _, pr := range []struct {
 		a, b     []any
 		supplied [][2][]int
@@ -210,7 +216,7 @@ func genC13(e *emitter, tier string) {
 	} {
 		g := &GraphJ{Inputs: []VInfoJ{{Name: "a", Dt: "f32", Dims: pr.a}, {Name: "b", Dt: "f32", Dims: pr.b}}}
 		for _, sp := range pr.supplied {
-			for rep := 0; rep < 2; rep++ {
+			for rep := 0; rep < 3; rep++ {
 				e.emit(validateCase("extents-redistributed", g, []SupJ{{"a", sp[0]}, {"b", sp[1]}}))
 			}
 		}
